@@ -75,7 +75,59 @@ func privateDoc(i int) *sbom.Document {
 		d.NodeList.Nodes = append(d.NodeList.Nodes, &sbom.Node{Id: fmt.Sprintf("n%d", k), Name: fmt.Sprintf("t%d-%d", i, k)})
 	}
 	d.NodeList.RootElements = []string{"n0"}
+	// relationships that differ per thread: every node but the root is contained in the root and depends on its predecessor
+	for k := 1; k <= i; k++ {
+		d.NodeList.Edges = append(d.NodeList.Edges,
+			&sbom.Edge{From: "n0", Type: sbom.Edge_contains, To: []string{fmt.Sprintf("n%d", k)}},
+			&sbom.Edge{From: fmt.Sprintf("n%d", k), Type: sbom.Edge_dependsOn, To: []string{fmt.Sprintf("n%d", k-1)}})
+	}
 	return d
+}
+
+// pointSerializer wraps a registered serializer so that the boundaries between the writer and its driver (before
+// Serialize, before Render) are scheduling points: state that a driver or a writer keeps from one step of a call to
+// the next is then exposed to the calls of other threads that the scheduler can put in between.
+type pointSerializer struct {
+	inner native.Serializer
+}
+
+func (p *pointSerializer) EnabledFor(string) bool { return true }
+
+func (p *pointSerializer) Serialize(d *sbom.Document, o *native.SerializeOptions, fo interface{}) (interface{}, error) {
+	sched.Point("driver.serialize", p)
+	return p.inner.Serialize(d, o, fo)
+}
+
+func (p *pointSerializer) Render(doc interface{}, w io.Writer, o *native.RenderOptions, fo interface{}) error {
+	sched.Point("driver.render", p)
+	return p.inner.Render(doc, w, o, fo)
+}
+
+type pointUnserializer struct {
+	inner native.Unserializer
+}
+
+func (p *pointUnserializer) EnabledFor(string) bool { return true }
+
+func (p *pointUnserializer) Unserialize(r io.Reader, o *native.UnserializeOptions, fo interface{}) (*sbom.Document, error) {
+	sched.Point("driver.unserialize", p)
+	return p.inner.Unserialize(r, o, fo)
+}
+
+// wrapDrivers puts the scheduling-point wrappers around the drivers of the default formats (idempotent per reset).
+func wrapDrivers() {
+	for _, f := range rw.DefaultFormats {
+		if s, err := writer.GetFormatSerializer(f); err == nil && s != nil {
+			if _, done := s.(*pointSerializer); !done {
+				writer.RegisterSerializer(f, &pointSerializer{inner: s})
+			}
+		}
+		if u, err := reader.GetFormatUnserializer(f); err == nil && u != nil {
+			if _, done := u.(*pointUnserializer); !done {
+				reader.RegisterUnserializer(f, &pointUnserializer{inner: u})
+			}
+		}
+	}
 }
 
 var (
@@ -215,7 +267,8 @@ func alphabet() []call {
 			if err := w.WriteStream(privateDoc(i), nopCloser{&buf}); err != nil {
 				return "err:" + err.Error()
 			}
-			return fmt.Sprintf("packages=%d", bytes.Count(buf.Bytes(), []byte(`"SPDXID": "SPDXRef-n`)))
+			n, _ := rw.NormalizeJSON(buf.Bytes())
+			return fmt.Sprintf("packages=%d %x", bytes.Count(buf.Bytes(), []byte(`"SPDXID": "SPDXRef-n`)), sha256.Sum256([]byte(n)))[:24]
 		}},
 		{"WriteStream(private, spdx23, render options of its own)", func(i int) string {
 			// every thread renders with another indentation; the result is a digest of the bytes as written (creation
@@ -235,13 +288,34 @@ func alphabet() []call {
 			}
 			return fmt.Sprintf("%x", sha256.Sum256(timestampRe.ReplaceAll(buf.Bytes(), []byte(`"timestamp": "T"`))))[:12]
 		}},
+		{"shared-writer.WriteStreamWithOptions(private, per-call format and render options)", func(i int) string {
+			// one Writer value used by every thread, each call with options of its own
+			var buf bytes.Buffer
+			f := []formats.Format{formats.SPDX23JSON, formats.CDX15JSON, formats.SPDX23JSON}[i%3]
+			o := &writer.Options{Format: f, RenderOptions: &native.RenderOptions{Indent: []int{1, 2, 7}[i%3]}, SerializeOptions: &native.SerializeOptions{}}
+			if err := sharedWriter.WriteStreamWithOptions(privateDoc(i), nopCloser{&buf}, o); err != nil {
+				return "err:" + err.Error()
+			}
+			b := createdRe.ReplaceAll(buf.Bytes(), []byte(`"created": "T"`))
+			b = timestampRe.ReplaceAll(b, []byte(`"timestamp": "T"`))
+			return fmt.Sprintf("%x", sha256.Sum256(b))[:12]
+		}},
+		{"shared-writer.WriteStream(private)", func(i int) string {
+			var buf bytes.Buffer
+			if err := sharedWriter.WriteStream(privateDoc(i), nopCloser{&buf}); err != nil {
+				return "err:" + err.Error()
+			}
+			b := timestampRe.ReplaceAll(buf.Bytes(), []byte(`"timestamp": "T"`))
+			return fmt.Sprintf("%x", sha256.Sum256(b))[:12]
+		}},
 		{"WriteStream(private, cdx15)", func(i int) string {
 			var buf bytes.Buffer
 			w := writer.New(writer.WithFormat(formats.CDX15JSON))
 			if err := w.WriteStream(privateDoc(i), nopCloser{&buf}); err != nil {
 				return "err:" + err.Error()
 			}
-			return fmt.Sprintf("components=%d", bytes.Count(buf.Bytes(), []byte(`"bom-ref": "n`)))
+			n, _ := rw.NormalizeJSON(buf.Bytes())
+			return fmt.Sprintf("components=%d %x", bytes.Count(buf.Bytes(), []byte(`"bom-ref": "n`)), sha256.Sum256([]byte(n)))[:26]
 		}},
 		{"ParseStream(rich cdx, reference-less components)", func(i int) string {
 			d, err := reader.New().ParseStream(strings.NewReader(richCDX[i%len(richCDX)]))
@@ -281,6 +355,9 @@ func alphabet() []call {
 	}
 }
 
+// sharedWriter: one writer value (CycloneDX 1.4, indent 3) that the shared-writer calls of all threads use.
+var sharedWriter = writer.New(writer.WithFormat(formats.CDX14JSON), writer.WithRenderOptions(&native.RenderOptions{Indent: 3}))
+
 var (
 	createdRe   = regexp.MustCompile(`"created":\s*"[^"]*"`)
 	timestampRe = regexp.MustCompile(`"timestamp":\s*"[^"]*"`)
@@ -299,6 +376,7 @@ func resetState(nThreads int, fresh bool) {
 	}
 	if !fresh {
 		writer.RegisterSerializer(keyShared, &namedS{"s-initial"})
+		wrapDrivers()
 	}
 }
 
@@ -574,8 +652,16 @@ func runScenarios(c *engine.Ctx, al []call, scenarios []scenario, bound int) {
 					// (ThreadSanitizer has no false positives, but it re-detects a given access pattern only some of the
 					// time - e.g. a read after a write by the same goroutine may not be kept in its shadow cells -, so one
 					// re-detection in 8 fresh-process replays of the schedule confirms the report)
-					k := confirmRace(s, x.Choices, rs[0].Signature)
-					viol.Detail = fmt.Sprintf("re-detected in %d of 8 fresh-process replays of this schedule\n%s", k, viol.Detail)
+					k := confirmRace(s, x.Choices, rs[0].Signature, false)
+					how := "this schedule"
+					if k == 0 {
+						// the race may need state left behind by earlier calls (a buffer that has grown, a cache that is warm):
+						// replay the schedule in fresh processes after the scenario's own calls have been made once, sequentially
+						if k = confirmRace(s, x.Choices, rs[0].Signature, true); k > 0 {
+							how = "this schedule run after the same calls had been made once before in the process"
+						}
+					}
+					viol.Detail = fmt.Sprintf("re-detected in %d of 8 fresh-process replays of %s\n%s", k, how, viol.Detail)
 					viol.PreConfirmed = 1
 					if k >= 1 {
 						viol.PreConfirmed = 5
@@ -621,7 +707,7 @@ func runScenarios(c *engine.Ctx, al []call, scenarios []scenario, bound int) {
 }
 
 // confirmRace replays one schedule of a scenario in fresh processes and counts how many report the same race.
-func confirmRace(s scenario, choices []int, sig string) int {
+func confirmRace(s scenario, choices []int, sig string, history bool) int {
 	self, _ := os.Executable()
 	n := 0
 	for i := 0; i < 8; i++ {
@@ -630,9 +716,16 @@ func confirmRace(s scenario, choices []int, sig string) int {
 		if s.fresh {
 			start = "fresh"
 		}
-		cmd := exec.Command(self, "--aux", "c17race", encode(s.calls), encodeInts(choices), start)
+		hist := "no-history"
+		if history {
+			hist = "history"
+		}
+		cmd := exec.Command(self, "--aux", "c17race", encode(s.calls), encodeInts(choices), start, hist)
 		cmd.Env = append(os.Environ(), "GORACE=halt_on_error=0 log_path="+base, "MCVERIF_TSAN_LOG="+base)
 		out, _ := cmd.CombinedOutput()
+		if os.Getenv("VERIF_DUMP") != "" && i == 0 {
+			fmt.Printf("confirmRace: %s --aux c17race %q %q %s %s -> %.300q\n", self, encode(s.calls), encodeInts(choices), start, hist, out)
+		}
 		if strings.Contains(string(out), "RACE:") { // any report of the replayed schedule confirms (the two stacks may be listed in either order)
 			n++
 		}
@@ -689,6 +782,16 @@ func Aux(args []string) int {
 	n := len(s.calls)
 	if len(args) > 2 && args[2] == "fresh" {
 		s.fresh = true
+	}
+	if len(args) > 3 && args[3] == "history" {
+		// the same calls made once before, one thread after the other, by this (single) goroutine
+		resetState(n, false)
+		for ti := 0; ti < n; ti++ {
+			for _, ci := range s.calls[ti] {
+				al[ci].Do(ti)
+			}
+		}
+		_ = sched.NewRaceReports()
 	}
 	resetState(n, s.fresh)
 	bodies := make([]func(), n)
